@@ -41,6 +41,11 @@ func (s *Scope) evalLoc(e *Expr) Loc {
 	case "allelems":
 		a := s.eval(e.Args[0])
 		if a.K == KSlice {
+			if e.Name == "cap" {
+				w := *a
+				w.Len = a.Cap
+				a = &w
+			}
 			return Loc{kind: "elems", sl: a, ty: elemOf(a.Ty)}
 		}
 		if _, ok := a.Ty.Underlying().(*types.Map); ok {
@@ -319,6 +324,9 @@ func (f *Frame) loopWrites(L *Loop) (mems map[string]string, maps map[string]*ty
 			}
 			if common.IsInvoke() {
 				name := ifaceMethodName(common)
+				if _, ok := f.c.W.externFrames[name]; ok {
+					return
+				}
 				if w, ok := f.c.W.modelWrites[name]; ok {
 					for _, m := range w {
 						mems[m] = ""
